@@ -132,105 +132,8 @@ def rule_accesspath(P) -> RuleResult:
 # ----------------------------------------------------------------------
 # R-ROWGEN
 
-def _gen_events(fi, isinstance_result):
-    """Run a row generator's loop structure once; count yields per element under the given isinstance outcome."""
-    tr = Tracer(names={'self': finite.Sym('self')})
-    tr.isinstance_ = lambda v, c, _r=isinstance_result: _r
-    try:
-        tr.run(body_without_docstring(fi.node), {})
-    except finite.Return:
-        pass
-    return tr.events
 
 
-def rule_rowgen(P) -> RuleResult:
-    res = RuleResult('R-ROWGEN')
-    m = P.module(QE)
-    ent = m.classes.get('EntriesTable')
-    pos = m.classes.get('PostingsTable')
-    if ent is None or pos is None:
-        raise AnalysisError('anchor vanished: EntriesTable / PostingsTable')
-    for ci, kind in ((ent, 'entries'), (pos, 'postings')):
-        it = ci.methods.get('__iter__')
-        if it is None:
-            raise AnalysisError(f'anchor vanished: {ci.name}.__iter__')
-        construct = it.fq
-        n0 = len(res.findings)
-        src = unparse(it.node)
-        if 'self.prepare()' not in src:
-            res.fail(construct, 'rowgen:prepare', f'{ci.name} must iterate the entries prepared by OPEN/CLOSE/CLEAR (self.prepare())', loc(it))
-        loops = [n for n in ast.walk(it.node) if isinstance(n, ast.For)]
-        ifs = [n for n in ast.walk(it.node) if isinstance(n, ast.If)]
-        yields = [n for n in ast.walk(it.node) if isinstance(n, ast.Yield)]
-        if len(yields) != 1:
-            res.fail(construct, 'rowgen:yield', f'{ci.name}.__iter__ must yield exactly once per row; found {len(yields)} yield sites', loc(it))
-            continue
-        if kind == 'entries':
-            if len(loops) != 1 or ifs:
-                res.fail(construct, 'rowgen:filter', f'the entries table must yield one row for every directive, unfiltered; found '
-                         f'{len(loops)} loops and {len(ifs)} conditions', loc(it))
-            else:
-                ev = _gen_events(it, True)
-                if sum(1 for e in ev if e[0] == 'yield') != 1:
-                    res.fail(construct, 'rowgen:yield', 'not exactly one row per directive', loc(it))
-                lv = unparse(loops[0].target)
-                if f'context.entry = {lv}' not in src:
-                    res.fail(construct, 'rowgen:bind', 'the row context must hold the current directive (context.entry)', loc(it))
-        else:
-            if len(loops) != 2:
-                res.fail(construct, 'rowgen:loops', 'the postings table iterates the postings of every transaction (two nested loops)', loc(it))
-                continue
-            outer, inner = loops[0], loops[1]
-            tests = [unparse(i.test) for i in ifs]
-            good_tests = [t for t in tests if re.fullmatch(r'isinstance\(\w+, data\.Transaction\)', t)]
-            if len(tests) != 1 or len(good_tests) != 1:
-                res.fail(construct, 'rowgen:filter', f'postings rows are filtered only by "the directive is a transaction"; found conditions {tests}', loc(it))
-            if not unparse(inner.iter).endswith('.postings'):
-                res.fail(construct, 'rowgen:inner', f'the inner loop must range over the postings of the transaction; ranges over `{unparse(inner.iter)}`', loc(it))
-            for want, yes in ((1, True), (0, False)):
-                ev = _gen_events(it, yes)
-                got = sum(1 for e in ev if e[0] == 'yield')
-                if got != want:
-                    res.fail(construct, 'rowgen:yield', f'for a {"transaction" if yes else "non-transaction directive"} the generator yields '
-                             f'{got} row(s) per posting, expected {want}', loc(it))
-            iv, ov = unparse(inner.target), unparse(outer.target)
-            if f'context.posting = {iv}' not in src or f'context.entry = {ov}' not in src:
-                res.fail(construct, 'rowgen:bind', 'the row context must hold the current posting and its transaction', loc(it))
-            if any(y is not None and any(x is yields[0] for x in ast.walk(y)) for y in [None]):
-                pass
-            if not any(x is yields[0] for x in ast.walk(inner)):
-                res.fail(construct, 'rowgen:yield-site', 'rows must be yielded per posting (inside the inner loop)', loc(it))
-        if len(res.findings) == n0:
-            res.ok({'generator': it.fq, 'rows': 'one per directive' if kind == 'entries' else 'one per posting of every transaction'})
-    # typed tables
-    sb = P.module(SB)
-    base = sb.classes.get('Table')
-    it = base.methods.get('__iter__') if base else None
-    if it is None:
-        raise AnalysisError('anchor vanished: sources.beancount.Table.__iter__')
-    src = unparse(it.node)
-    ifs = [unparse(n.test) for n in ast.walk(it.node) if isinstance(n, ast.If)]
-    ys = [n for n in ast.walk(it.node) if isinstance(n, ast.Yield)]
-    loops = [n for n in ast.walk(it.node) if isinstance(n, ast.For)]
-    if len(loops) == 1 and len(ys) == 1 and len(ifs) == 1 and re.fullmatch(r'isinstance\(\w+, (self\.)?datatype\)', ifs[0]) \
-            and unparse(loops[0].iter) == 'self.entries' and unparse(ys[0].value) == unparse(loops[0].target):
-        res.ok({'generator': it.fq, 'rows': 'every entry that is an instance of the table datatype'})
-    else:
-        res.fail(it.fq, 'rowgen:typed', 'a directive table yields exactly the entries that are instances of its datatype, in ledger order',
-                 loc(it))
-    acc = sb.classes.get('AccountsTable')
-    it = acc.methods.get('__iter__') if acc else None
-    if it is None or 'self.accounts.items()' not in unparse(it.node):
-        res.fail(f'{SB}:AccountsTable.__iter__', 'rowgen:accounts', 'the accounts table yields one row per account of the ledger', loc(acc) if acc else '')
-    else:
-        res.ok({'generator': it.fq, 'rows': 'one per account'})
-    com = sb.classes.get('CommoditiesTable')
-    it = com.methods.get('__iter__') if com else None
-    if it is None or 'self.commodities.values()' not in unparse(it.node):
-        res.fail(f'{SB}:CommoditiesTable.__iter__', 'rowgen:commodities', 'the commodities table yields one row per commodity directive', loc(com) if com else '')
-    else:
-        res.ok({'generator': it.fq, 'rows': 'one per commodity directive'})
-    return res
 
 
 # ----------------------------------------------------------------------
